@@ -81,8 +81,8 @@ theorem merge_ok (fs : FS) (subdirs : List String) (out : String) (fs' : FS) (re
   obtain ⟨maps, l10, k10, rfl, r10⟩ := cChannelData_ok _ _ _ _ _ c10
   obtain ⟨pos, l11, k11, rfl, r11⟩ := cChannelPositions_ok _ _ _ _ _ c11
   obtain ⟨ts, l12, k12, rfl, r12⟩ := cTemplates_ok _ _ _ _ _ c12
-  obtain ⟨pcs, l13, rfl, r13⟩ := cPcInd_ok _ _ _ _ _ c13
-  obtain ⟨tfs, l14, rfl, r14⟩ := cTfInd_ok _ _ _ _ _ c14
+  obtain ⟨pcs, l13, k13, rfl, r13⟩ := cPcInd_ok _ _ _ _ _ c13
+  obtain ⟨tfs, l14, k14, rfl, r14⟩ := cTfInd_ok _ _ _ _ _ c14
   obtain ⟨ms1, l15, rfl, r15⟩ := cMisc_ok _ _ _ _ _ _ c15
   obtain ⟨ms2, l16, rfl, r16⟩ := cMisc_ok _ _ _ _ _ _ c16
   obtain ⟨ms3, l17, rfl, r17⟩ := cMisc_ok _ _ _ _ _ _ c17
@@ -131,7 +131,7 @@ theorem merge_ok (fs : FS) (subdirs : List String) (out : String) (fs' : FS) (re
             similar := ms1, whitening := ms2, whiteningInv := ms3 }, ?_, ?_, ?_⟩
   · exact ⟨l1, l3, l4, l5, l6a, l7, l8, l9, l10, l11, l12, l13, l14, l15, l16, l17⟩
   · refine ⟨by simpa using hne, hnesc, hnest, maxOK_ok _ _ k10, maxOK_ok _ _ k11, concatOK_ok _ _ k3,
-      concatOK_ok _ _ k4, concatOK_ok _ _ k5, concatOK_ok _ _ k6a, ?_, ?_, ?_, ?_⟩
+      concatOK_ok _ _ k4, concatOK_ok _ _ k5, concatOK_ok _ _ k6a, ?_, ?_, ?_, ?_, k13, k14⟩
     · rw [n4, spikeOrder_length]
     · rw [n5, spikeOrder_length]
     · rw [← shiftIds_flatten_length, n6a, spikeOrder_length]
@@ -177,5 +177,19 @@ theorem merge_raises_of_few_spikes (fs : FS) (subdirs : List String) (out : Stri
   | cons x t => cases t with
     | nil => exact h1 rfl
     | cons y t => simp at hfew
+
+/-- index tables of different row widths make the merge raise -/
+theorem merge_raises_of_ragged_tables (fs : FS) (subdirs : List String) (out : String) (hout : out ∉ subdirs)
+    (name : String) (hname : name = "pc_feature_ind.npy" ∨ name = "template_feature_ind.npy")
+    (tables : List (List (List Nat))) (hl : loadEach (readTable fs name) subdirs = .ok tables)
+    (hr : sameWidth tables = false) : (merge fs subdirs out).2 ≠ none := by
+  intro hnone
+  obtain ⟨I, hL, hD, _⟩ := merge_ok fs subdirs out (merge fs subdirs out).1.1 (merge fs subdirs out).1.2
+    (by rw [← hnone]) hout
+  obtain ⟨_, _, _, _, _, _, _, _, _, _, _, l13, l14, _, _, _⟩ := hL
+  obtain ⟨_, _, _, _, _, _, _, _, _, _, _, _, _, k13, k14⟩ := hD
+  rcases hname with rfl | rfl
+  · rw [hl] at l13; cases l13; rw [hr] at k13; cases k13
+  · rw [hl] at l14; cases l14; rw [hr] at k14; cases k14
 
 end PhyVerif.C11.Lemmas
